@@ -36,6 +36,10 @@ GATE_SNIPS = [
     "{% include 'ginc.html' %}",
     "{% set v = gate('s') %}{{ v }}{{ tid }}", "{% set who = tid %}{{ gate('t') }}{{ who }}",
     "{% autoescape true %}{{ gate('e') }}{{ html }}{% endautoescape %}{{ html }}", "{{ html }}{{ gate('h') }}{{ [html, html]|join('-') }}{{ html|upper }}",
+    # values that pass through auto_await: a plain generator object (not awaitable) and a generator-based coroutine made by
+    # types.coroutine (awaitable, same type): in either order, in different tasks
+    "{% for x in plaingen() %}{{ x }}{% endfor %}{{ gate('pg') }}{{ legacy(tid) }}", "{{ legacy(tid) }}{{ gate('lg') }}{% for x in plaingen() %}{{ x }}{% endfor %}",
+    "{{ gate('lh') }}{{ legacy(1) + legacy(2) }}",
     # an autoescape block decided at run time (differently per task) whose body suspends
     "{% autoescape (tid == 'T0') %}{{ gate('ax') }}{{ [html, '<m>'|safe]|join('-') }}{{ html }}{% endautoescape %}{{ html }}",
     # await points inside an async filter and inside the iteration of an async iterable (loop state per task)
@@ -47,6 +51,7 @@ GATE_SNIPS = [
     "{% import 'glib3.html' as L3 %}{{ L3.gm3(tid) }}{{ html }}",
     # an {% autoescape %} block inside a cached module's macro (recorded finding C37-F1)
     "{% import 'glib4.html' as L4 %}{{ L4.f4(html) }}", "{% import 'glib4.html' as L4 %}{{ L4.t4(html) }}{{ [html, '<m>'|safe]|join }}",
+    "{% import 'glib4.html' as L4 %}{{ L4.s4(html) }}",
     "{% import 'glib2.html' as L2 %}{{ L2.who }}{{ gate('z') }}{{ L2.gm2() }}",
     "{% set c = cycler('o', 'e') %}{{ c.next() }}{{ gate('y') }}{{ c.next() }}{{ c.next() }}",
     "{% filter upper %}{{ tid }}{{ gate('f') }}{% endfilter %}",
@@ -62,6 +67,7 @@ AUX = {
     "pc.html": "{% extends 'pa.html' %}{% block b %}c-b{{ super() }}{% endblock %}",
     "glib3.html": "{% macro gm3(p) %}<b>{{ ggate('m3') }}{{ p }}</b>{% endmacro %}",
     "glib4.html": "{% macro f4(x) %}{% autoescape false %}{{ ggate('ae') }}{{ [x, '<m>'|safe]|join('-') }}{% endautoescape %}{% endmacro %}"
+                  "{% macro s4(x) %}{% autoescape false %}{{ ggate('as') }}{% set v %}{{ x }}{% endset %}{{ v }}{% macro c4() %}{{ caller() }}{% endmacro %}{% call c4() %}{{ x }}{% endcall %}{% endautoescape %}{% endmacro %}"
                   "{% macro t4(x) %}{% autoescape true %}{{ ggate('at') }}{{ [x, '<m>'|safe]|join('-') }}{% endautoescape %}{% endmacro %}",
     "glib2.html": "{% set who = tid|default('none') %}{% macro gm2() %}[{{ who }}]{% endmacro %}",
 }
@@ -155,6 +161,17 @@ def task_data(sched, tid):
     async def gate(label):
         return await sched.gate(label)
 
+    import types
+
+    def plaingen():
+        return (x for x in ("p", "q"))
+
+    @types.coroutine
+    def legacy(x):
+        yield from asyncio.sleep(0).__await__()
+        return x if isinstance(x, str) else x * 3
+
+    data.update(plaingen=plaingen, legacy=legacy)
     data.update(gxs=GatedAIter(lambda: sched, [1, 0]), gate=gate, tid=tid, html="<i>" + tid, layout=["pa.html", "pb.html", "pc.html"][int(tid[1:]) % 3])
     return data
 
@@ -348,7 +365,8 @@ FIXED = [
 FIXED.append([DYN_PARENT[0], DYN_PARENT[0], DYN_PARENT[0]])      # one template, three tasks, three different parents
 AE_DYN = "{% autoescape (tid == 'T0') %}{{ gate('ax') }}{{ [html, '<m>'|safe]|join('-') }}{{ html }}{% endautoescape %}{{ html }}"
 FIXED.append([AE_DYN, AE_DYN])        # one Template object, two tasks, different run-time autoescape decisions
-FIXED_AUTO = [False, False, False, True, False, False, False]
+FIXED.append(["{% for x in plaingen() %}{{ x }}{% endfor %}{{ gate('pg') }}{{ legacy(tid) }}", "{{ gate('lg') }}{{ legacy(tid) }}{% for x in plaingen() %}{{ x }}{% endfor %}"])
+FIXED_AUTO = [False, False, False, True, False, False, False, False]
 
 
 def replay(ctx, data):
